@@ -50,6 +50,18 @@ def frontier(I, o):
                   z3.ForAll([s], z3.Implies(z3.And(mem(I, b, s), s >= cur), s >= pos(I, b))))
 
 
+def low_passed(I, o, q):
+    """Entries a child has already passed but the union has not reported yet
+    score at most q in that child (what skip_to_quality leaves behind)."""
+    a, b = _ab(o)
+    s = z3.Int(I.fresh_name("s"))
+    cur = v_union()["pos"](I, o)
+    from pyvc.theories.cursor import _real
+    q = _real(q)
+    return z3.And(z3.ForAll([s], z3.Implies(z3.And(mem(I, a, s), s >= cur, s < pos(I, a)), score_at(I, a, s) <= q)),
+                  z3.ForAll([s], z3.Implies(z3.And(mem(I, b, s), s >= cur, s < pos(I, b)), score_at(I, b, s) <= q)))
+
+
 def v_union(dismax=False):
     def m(I, o, s):
         a, b = _ab(o)
@@ -171,7 +183,8 @@ ACTIVE = "pos(self) < INF"
 def register(R, tier="quick"):
     from pyvc.values import SpecFn
     SF = {"both": SpecFn("both", both), "frontier": SpecFn("frontier", frontier), "lag_ok": SpecFn("lag_ok", lag_ok),
-          "lagcond": SpecFn("lagcond", lagcond)}
+          "lagcond": SpecFn("lagcond", lagcond),
+          "low_passed": SpecFn("low_passed", low_passed)}
 
     def C(key, **kw):
         kw.setdefault("spec_funcs", SF)
@@ -195,7 +208,7 @@ def register(R, tier="quick"):
                               "forall(lambda s: implies(mem(self, s) and s >= old(pos(self.a)) and s >= old(pos(self.b)), "
                               "s >= pos(a) and s >= pos(b)))"])},
       canaries=[Canary("skip-past-target", "ra = a.skip_to(b_id)", "ra = a.skip_to(b_id + 1)"),
-                Canary("stops-when-unequal", "and a_id != b_id", "and a_id > b_id")],
+                Canary("stops-when-unequal", "and (a_id != b_id)", "and (a_id > b_id)")],
       note="synchronises the children on the first common id at or after both positions")
     C(K + "__init__", props=PROPS_CUR,
       setup=lambda I: {"self": Obj(I.repo.klass(BIN, "IntersectionMatcher")), "a": Cursor(I, "a"), "b": Cursor(I, "b")},
@@ -338,9 +351,52 @@ def register(R, tier="quick"):
       canaries=[Canary("b-not-moved", "br = self.b.skip_to(self.a.id())", "br = False")])
     C(M + "skip_to", props=PROPS_CUR, setup=mk_args("AndMaybeMatcher", {"id": "int"}),
       requires=["minv(self)", ACTIVE], modifies=["self.a", "self.b"], ensures=SKIP_POST, returns="opaque",
-      canaries=[Canary("b-not-moved", "rb = self.b.skip_to(id)", "rb = False")])
+      canaries=[Canary("b-only-to-target", "rb = self.b.skip_to(self.a.id())", "rb = self.b.skip_to(id)")])
     C(M + "score", props=PROPS_SC, setup=sm, requires=["minv(self)", ACTIVE],
       ensures=["result == score_at(self, pos(self))"], returns="real",
       canaries=[Canary("b-always-added", "if self.b.is_active() and self.a.id() == self.b.id():", "if self.b.is_active():")])
     C(M + "reset", props=PROPS_CUR, setup=sm, requires=["minv(self.a)", "minv(self.b)"], modifies=["self.a", "self.b"],
       ensures=["minv(self)", "forall(lambda s: implies(mem(self, s), s >= pos(self)))"])
+
+    # ================================================================ replace / skip_to_quality / copy
+    idopt = lambda I: Opt(z3.Bool("idnone"), z3.Int("idval"))
+    REPL_REQ = ["minv(self)", "minquality >= 0",
+                "minquality == 0 or (supports_quality(self.a) and supports_quality(self.b))"]
+    REPL_POST = ["minv(result)", "wfpos(result)", "replaces(result, old(self), minquality)"]
+    SKQ_REQ = ["minv(self)", ACTIVE, "supports_quality(self.a)", "supports_quality(self.b)"]
+    SKQ_POST = ["minv(self)", "wfpos(self)", "pos(self) >= old(pos(self))",
+                "forall(lambda s: implies(mem(self, s) and s >= old(pos(self)) and s < pos(self), "
+                "score_at(self, s) <= minquality))"]
+    table = [("IntersectionMatcher", {}), ("UnionMatcher", {"_id": idopt}),
+             ("DisjunctionMaxMatcher", {"_id": idopt, "tiebreak": 0.0}), ("AndNotMatcher", {}), ("AndMaybeMatcher", {})]
+    for cls, extra in table:
+        key = BIN + ":" + cls + "."
+        C(key + "replace", props=PROPS_Q + ["C11"], setup=mk_args(cls, {"minquality": "real"}, **extra),
+          requires=REPL_REQ, ensures=REPL_POST, returns=lambda I, env: Cursor(I, "repl"),
+          note="replace(q) keeps every remaining entry scoring more than q with its score (all entries if q == 0) and "
+               "adds none")
+        if cls == "DisjunctionMaxMatcher":
+            # the union-like composites are only "q-faithful" after skip_to_quality (entries scoring <= q in one
+            # child may have been passed by that child): the postcondition is the property clause itself
+            post = ["minv(self.a)", "minv(self.b)", "pos(self) >= old(pos(self))", "low_passed(self, minquality)",
+                    "forall(lambda s: implies(mem(self, s) and s >= old(pos(self)) and s < pos(self), "
+                    "score_at(self, s) <= minquality))"]
+            loops = {0: LoopSpec(inv=["minv(self.a)", "minv(self.b)", "a is self.a", "b is self.b",
+                                      "is_none(self._id)", "pos(self) >= old(pos(self))",
+                                      "low_passed(self, minquality)",
+                                      "forall(lambda s: implies(mem(self, s) and s >= old(pos(self)) and s < pos(self), "
+                                      "score_at(self, s) <= minquality))"])}
+        else:
+            post = SKQ_POST
+            loops = {0: LoopSpec(inv=["minv(self)", "a is self.a", "b is self.b", "pos(self) >= old(pos(self))",
+                                      "forall(lambda s: implies(mem(self, s) and s >= old(pos(self)) and s < pos(self), "
+                                      "score_at(self, s) <= minquality))"])} if cls != "AndNotMatcher" else {}
+        C(key + "skip_to_quality", props=PROPS_Q, setup=mk_args(cls, {"minquality": "real"}, **extra),
+          requires=SKQ_REQ + ["minquality >= 0"], ensures=post, modifies=["self.a", "self.b"], returns="int", loops=loops,
+          note="skip_to_quality(q) never passes over an entry scoring more than q")
+    C(BIN + ":BiMatcher.copy", props=["C11"], setup=mk("IntersectionMatcher"), requires=["minv(self)"],
+      ensures=["result is not self", "result.a is not self.a", "result.b is not self.b", "minv(result)",
+               "pos(result) == pos(self)", "forall(lambda s: mem(result, s) == mem(self, s))",
+               "forall(lambda s: score_at(result, s) == score_at(self, s))"],
+      canaries=[Canary("shares-child", "self.__class__(self.a.copy(), self.b.copy())", "self.__class__(self.a, self.b.copy())")],
+      note="copy() is an equal, independent cursor")
